@@ -94,6 +94,7 @@ type Profile struct {
 	Backends           []string
 	Reads              []string // read kinds for "read" steps
 	NoInitVer          bool
+	NormalFormOneIn    int // one case in N draws every version's writes in normal form (ascending keys, one op per key)
 	FixedSkipFast      *bool
 }
 
@@ -101,7 +102,7 @@ var allReads = []string{"get", "has", "getwithindex", "getbyindex", "iterate", "
 	"versionedproof", "hash", "workinghash", "imhash", "getversioned", "getimmutable", "export"}
 
 var baseWeights = map[string]int{"set": 30, "remove": 12, "save": 18, "rollback": 3, "reopen": 7, "prune": 7, "prune_refuse": 1,
-	"lvfo": 3, "dvf": 2, "setnil": 1, "read": 0, "hop": 0}
+	"lvfo": 3, "dvf": 2, "setnil": 1, "read": 0, "hop": 0, "iter": 0}
 
 func weights(over map[string]int) map[string]int {
 	m := map[string]int{}
@@ -155,6 +156,7 @@ func GenOp(t *rapid.T, w *World, p *Profile) Op {
 	add("dvf", rollbackOK)
 	add("setnil", true)
 	add("read", true)
+	add("iter", true)
 	// the importer allocates a nonce table of size version+1: keep imports to realistic version numbers
 	add("hop", w.Latest > 0 && !w.Dirty && w.Latest < 1<<20)
 	total := 0
@@ -172,11 +174,11 @@ func GenOp(t *rapid.T, w *World, p *Profile) Op {
 	}
 	switch kind {
 	case "set":
-		return Op{Kind: "set", K: genKey(t, w.WKV), V: genValue(t)}
+		return Op{Kind: "set", K: w.normalKey(genKey(t, w.WKV)), V: genValue(t)}
 	case "setnil":
 		return Op{Kind: "setnil", K: genKey(t, w.WKV)}
 	case "remove":
-		return Op{Kind: "remove", K: genRemoveKey(t, w.WKV)}
+		return Op{Kind: "remove", K: w.normalKey(genRemoveKey(t, w.WKV))}
 	case "save", "rollback":
 		return Op{Kind: kind}
 	case "reopen":
@@ -221,6 +223,26 @@ func GenOp(t *rapid.T, w *World, p *Profile) Op {
 	case "hop":
 		c := genCfg(t, false)
 		return Op{Kind: "hop", N: rapid.Int64Range(w.First, w.Latest).Draw(t, "ver"), Flag: rapid.Bool().Draw(t, "compress"), Cfg: &c}
+	case "iter":
+		keys := unionKeys(w.WKV)
+		if w.Latest > 0 {
+			keys = unionKeys(w.WKV, w.Vers[w.Latest].KV)
+		}
+		op := Op{Kind: "iter", Flag: rapid.Bool().Draw(t, "asc")}
+		if b := GenBound(t, keys, "s"); b == nil {
+			op.StartNil = true
+		} else {
+			op.Start = b
+		}
+		if b := GenBound(t, keys, "e"); b == nil {
+			op.EndNil = true
+		} else {
+			op.End = b
+		}
+		if rapid.IntRange(0, 2).Draw(t, "stop") == 0 {
+			op.N = int64(rapid.IntRange(1, 4).Draw(t, "stopAt"))
+		}
+		return op
 	case "read":
 		reads := p.Reads
 		if len(reads) == 0 {
@@ -292,4 +314,22 @@ func unionKeys(ms ...map[string][]byte) []string {
 	}
 	sort.Strings(out)
 	return out
+}
+
+// normalKey: in a normal-form case every write of a version uses a key above the previous one.
+func (w *World) normalKey(k []byte) []byte {
+	if !w.NormalForm || len(w.WOps) == 0 {
+		return k
+	}
+	last := w.WOps[len(w.WOps)-1].K
+	if bytes.Compare(k, last) > 0 {
+		return k
+	}
+	// next present key above last, else an extension of last
+	for _, e := range sortedKeys(w.WKV) {
+		if e > string(last) {
+			return []byte(e)
+		}
+	}
+	return append(append([]byte{}, last...), 0x01)
 }
